@@ -294,6 +294,20 @@ pub proof fn lemma_supp_indep(nodes: Seq<BddNode>, t: int, v: Var)
         law_indep_node(nodes[t].var.0, den(nodes, nodes[t].hi.0 as int), den(nodes, nodes[t].lo.0 as int), v.0);
     } else { law_indep_const(false, v.0); law_indep_const(true, v.0); }
 }
+// in an ordered diagram every variable of the support is at least the top variable
+pub proof fn lemma_supp_ge_top(nodes: Seq<BddNode>, t: int, v: Var)
+    requires nodes_wf(nodes), 0 <= t < nodes.len(), supp(nodes, t).contains(v),
+    ensures v.0 >= topvar(nodes, t), t >= 2,
+    decreases t
+{
+    if t >= 2 {
+        assert(inner_ok(nodes, t));
+        let lo = nodes[t].lo.0 as int; let hi = nodes[t].hi.0 as int;
+        if v != nodes[t].var {
+            if supp(nodes, lo).contains(v) { lemma_supp_ge_top(nodes, lo, v); } else { lemma_supp_ge_top(nodes, hi, v); }
+        }
+    }
+}
 pub open spec fn exp32(d: int) -> nat { ((d as usize) as u32) as nat }
 pub open spec fn models_spec(nodes: Seq<BddNode>, t: int) -> (int, int)
     decreases t
